@@ -232,12 +232,14 @@ static void explore_readers(size_t len, const std::vector<ROp>& ops, const std::
   }
 }
 
-// fd answers: EINTR is retried transparently, EIO is an IOError, a 0-byte read is the end of the data
+// fd answers: EINTR is retried transparently, EIO is an IOError, a 0-byte read is the end of the data, a short transfer is
+// continued transparently. The expectation depends only on whether the scripted answer was consumed by some system call,
+// not on how the class groups bytes into system calls.
 static void explore_fd_answers() {
   const std::vector<uint8_t> src = {0x10, 0x21, 0x32, 0x43, 0x54, 0x65};
   for (int pos = 0; pos < 8; pos++)
-    for (int ans : {1, 2, 3})
-      for (int width : {0, 1, 2, 4}) {  // 0 = byte reads, else range width
+    for (int ans : {1, 2, 3, 4, 5})
+      for (int width : {0, 1, 2, 4, 6}) {  // 0 = byte reads, else range width
         std::string cid = "C17|fd|answer" + std::to_string(ans) + "@" + std::to_string(pos) + "|w" + std::to_string(width);
         if (!R.want(cid)) continue;
         int fd = fakefd_create(src.data(), src.size());
@@ -259,19 +261,19 @@ static void explore_fd_answers() {
               i += k;
             }
           }
-          // reference: syscall #pos answers ans; EINTR: transparent; EIO: IOError at the byte being read; EOF: RLR
+          // reference: if system call #pos happened it answered `ans`: EINTR and short reads are transparent, EIO is an
+          // IOError, 0 bytes is the end of the data; whatever was delivered before a failure is a prefix of the source
+          const bool consumed = fakefd_get(fd)->call > (size_t)pos;
           int want_err = 0;
-          size_t want_ok_bytes = src.size();
-          if (pos < (int)src.size() + (ans == 1 ? 1 : 0)) {
-            if (ans == 2 && pos < (int)src.size()) { want_err = IOERR; want_ok_bytes = pos; }
-            if (ans == 3 && pos < (int)src.size()) { want_err = RLR; want_ok_bytes = pos; }
-          }
+          if (consumed && ans == 2) want_err = IOERR;
+          if (consumed && ans == 3) want_err = RLR;
           R.counters["evaluations"]++;
           R.nontrivial(cid);
+          if (consumed) R.add("fd_answers_consumed");
           std::string why;
           if (err != want_err) why = std::string("status ") + ename(err) + ", expected " + ename(want_err);
-          else if (!err && got != src) why = "delivered bytes differ from the source after an interrupted read";
-          else if (err && width == 0 && got.size() != want_ok_bytes) why = "wrong number of bytes delivered before the failure";
+          else if (!err && got != src) why = "delivered bytes " + hex(got) + " differ from the source " + hex(src) + " after an interrupted or short read";
+          else if (err && (got.size() > src.size() || !std::equal(got.begin(), got.end(), src.begin()))) why = "bytes delivered before the failure are not a prefix of the source";
           if (!why.empty())
             R.viol("C17|fd-answer|" + std::to_string(ans), cid, why, "{\"answer\":" + std::to_string(ans) + ",\"at_syscall\":" + std::to_string(pos) + "}");
           r.Release();
@@ -290,15 +292,18 @@ static void explore_fd_answers() {
             if (width == 0) { err = ecode(w.Write(src[i])); i++; }
             else { size_t k = std::min<size_t>(width, src.size() - i); err = ecode(w.Write(&src[i], &src[i] + k)); i += k; }
           }
+          const bool consumed = fakefd_get(wfd)->call > (size_t)pos;
           int want_err = 0;
-          if (pos < (int)src.size()) { if (ans == 2) want_err = IOERR; if (ans == 3) want_err = WLR; }
+          if (consumed && ans == 2) want_err = IOERR;
+          if (consumed && ans == 3) want_err = WLR;
+          if (consumed) R.add("fd_answers_consumed");
           std::vector<uint8_t> out = fakefd_get(wfd)->data;
           R.counters["evaluations"]++;
           R.nontrivial(cidw);
           std::string why;
           if (err != want_err) why = std::string("status ") + ename(err) + ", expected " + ename(want_err);
           else if (!err && out != src) why = "bytes on the descriptor " + hex(out) + " differ from what was written " + hex(src);
-          else if (err && !std::equal(out.begin(), out.end(), src.begin())) why = "bytes written before the failure are not a prefix of the data";
+          else if (err && (out.size() > src.size() || !std::equal(out.begin(), out.end(), src.begin()))) why = "bytes written before the failure are not a prefix of the data";
           if (!why.empty())
             R.viol("C17|fd-answer-writer|" + std::to_string(ans), cidw, why, "{\"answer\":" + std::to_string(ans) + ",\"at_syscall\":" + std::to_string(pos) + "}");
           w.Release();
